@@ -124,7 +124,8 @@ static void* stub_alloc(int tag, size_t n) {
     void* p = NULL;
     if (fail) { w->ledger_fail++; w->alloc_failed_in_call++; }
     else {
-        p = malloc(n);                   /* exact size: ASan red zones sit right behind the block */
+        if (w->reuse_mode && w->cache_ptr && w->cache_size == n) { p = w->cache_ptr; w->cache_ptr = NULL; }   /* address reuse, like a LIFO allocator */
+        else p = malloc(n);              /* exact size: ASan red zones sit right behind the block */
         if (!p) pv_fatal("world: malloc failed");
         uint8_t* b = p;                  /* changing, never-zero junk */
         for (size_t i = 0; i < n; ++i) { uint8_t v = (uint8_t)pv_rand64(&w->junk_rng); b[i] = v ? v : 0xA7; }
@@ -161,7 +162,8 @@ static void stub_free(int tag, void* ptr) {
             w->live[i] = w->live[--w->nlive];
             w->freed_ring[w->freed_pos++ % 64] = ptr;
             w->ledger_frees++;
-            free(ptr);
+            if (w->reuse_mode) { if (w->cache_ptr) free(w->cache_ptr); w->cache_ptr = ptr; w->cache_size = n; }
+            else free(ptr);
         }
     }
     if (e) { e->ptr = ptr; e->a = verdict; }
@@ -370,8 +372,9 @@ bool pv_gen_place(pv_rng* r, int p, unsigned i, unsigned coin, bool loadable, un
 }
 
 static unsigned* ov_idx[PV_MAXLANG][PV_MAXLANG]; static int ov_n[PV_MAXLANG][PV_MAXLANG]; static bool ov_done[PV_MAXLANG][PV_MAXLANG];
-static bool ov_member[PV_MAXLANG][PV_MAXLANG][PV_NWORDS];
+static bool (*ov_member)[PV_MAXLANG][PV_NWORDS];     /* heap: keeps the static data segment small (C16 scans it) */
 int pv_overlap(int a, int b, const unsigned** idx_out) {
+    if (!ov_member) { ov_member = calloc(PV_MAXLANG, sizeof *ov_member); if (!ov_member) pv_fatal("oom"); }
     if (!ov_done[a][b]) {
         unsigned* v = pv_xmalloc(PV_NWORDS * sizeof *v); int n = 0;
         for (unsigned i = 0; i < PV_NWORDS; ++i) {
